@@ -66,3 +66,48 @@ def exc_info(outcome: str, ex) -> dict:
     if outcome == "hang":
         return {"cls": "hang", "isv": 0}
     return {"cls": outcome[4:], "isv": 1 if isinstance(ex, ValueError) else 0}
+
+
+# ---------------------------------------------------------------------------------------------
+# ProFormaAnnotation -> abstract annotation (spec/Annotation.tla)
+def val(v) -> str:
+    if isinstance(v, bool):
+        return "s:" + str(v)
+    if isinstance(v, int):
+        return "i:" + str(v)
+    if isinstance(v, float):
+        return "f:" + repr(v)
+    return "s:" + str(v)
+
+
+def mod(m) -> dict:
+    return {"v": val(m.val), "m": m.mult}
+
+
+def mods(ms) -> list:
+    return [mod(m) for m in ms] if ms else []
+
+
+def ann(a) -> dict:
+    """Project a ProFormaAnnotation. None and [] both map to the empty list (same abstract value); the `has`
+    bitmap keeps the None/non-None distinction for the session properties."""
+    internal = []
+    if a.internal_mods:
+        for k in sorted(a.internal_mods):
+            if a.internal_mods[k]:
+                internal.append({"i": k, "mods": mods(a.internal_mods[k])})
+    ivs = []
+    if a.intervals:
+        for iv in a.intervals:
+            ivs.append({"s": iv.start, "e": -1 if iv.end is None else iv.end, "amb": bool(iv.ambiguous),
+                        "mods": mods(iv.mods)})
+    return {"seq": list(a.sequence), "labile": mods(a.labile_mods), "static": mods(a.static_mods),
+            "isotope": mods(a.isotope_mods), "unknown": mods(a.unknown_mods), "nterm": mods(a.nterm_mods),
+            "cterm": mods(a.cterm_mods), "internal": internal, "intervals": ivs,
+            "charge": a.charge if isinstance(a.charge, int) and a.charge is not None else 0,
+            "adducts": mods(a.charge_adducts)}
+
+
+def has_bits(a) -> list:
+    return [int(x is not None) for x in (a.isotope_mods, a.static_mods, a.labile_mods, a.unknown_mods, a.nterm_mods,
+                                         a.cterm_mods, a.internal_mods, a.intervals, a.charge, a.charge_adducts)]
